@@ -73,15 +73,15 @@ def configs(tier):
         A("btcp: canonical lists <=2, local addresses x short tcp.connect_timeout",
           P(algs=7, dns=3, laddrs=30, ctos=2, dnstos=2, maxlen=2, canon=1), 1)
     else:
-        A("btcp: all lists <=4, no local address", P(algs=7, dns=3, laddrs=1, ctos=3, dnstos=2, maxlen=4), 1)
-        A("btcp: all lists <=3, no local address, dns.algorithm unset too, D<=2",
-          P(algs=15, dns=3, laddrs=1, ctos=3, dnstos=2, maxlen=3), 2)
-        A("btcp: all lists <=3, every local address kind", P(algs=7, dns=3, laddrs=30, ctos=3, dnstos=2, maxlen=3), 1)
-        A("btcp: canonical lists of 4, every local address kind",
-          P(algs=7, dns=3, laddrs=30, ctos=3, dnstos=2, minlen=4, maxlen=4, canon=1), 1)
-        A("btcp: canonical lists <=3, every local address kind, D<=2",
+        A("btcp: all lists <=3, no local address, D<=2", P(algs=7, dns=3, laddrs=1, ctos=3, dnstos=2, maxlen=3), 2)
+        A("btcp: all lists of 4, no local address", P(algs=7, dns=3, laddrs=1, ctos=1, dnstos=2, minlen=4, maxlen=4), 1)
+        A("btcp: canonical lists of 4, short tcp.connect_timeout", P(algs=7, dns=3, laddrs=1, ctos=2, dnstos=2, minlen=4, maxlen=4, canon=1), 1)
+        A("btcp: all lists <=3, every local address kind", P(algs=7, dns=3, laddrs=30, ctos=1, dnstos=2, maxlen=3), 1)
+        A("btcp: canonical lists of 4, local address v4:0 / v6:fixed",
+          P(algs=7, dns=3, laddrs=18, ctos=1, dnstos=2, minlen=4, maxlen=4, canon=1), 1)
+        A("btcp: canonical lists <=3, every local address kind, both timeouts, D<=2",
           P(algs=7, dns=3, laddrs=30, ctos=3, dnstos=2, maxlen=3, canon=1), 2)
-        A("btcp: canonical lists <=2, D<=4", P(algs=15, dns=3, laddrs=31, ctos=3, dnstos=2, maxlen=2, canon=1), 4)
+        A("btcp: canonical lists <=2, dns.algorithm unset too, D<=4", P(algs=15, dns=3, laddrs=31, ctos=3, dnstos=2, maxlen=2, canon=1), 4)
     d = 1 if q else 3
     A("btcp: resolver fails / fails late / silent, every reporting call", P(algs=15, dns=28, laddrs=3, dnstos=3, probes=7), d)
     A("btcp: late resolver against the default dns.timeout",
@@ -96,7 +96,7 @@ def configs(tier):
         A("tcp: canonical lists <=2, every reporting call", P("tcp", algs=7, dns=3, laddrs=3, ctos=3, dnstos=2, maxlen=2, probes=7, canon=1), 1)
     else:
         A("tcp: canonical lists <=3, local address none / v4:0 / v6:0, every reporting call",
-          P("tcp", algs=7, dns=3, laddrs=11, ctos=3, dnstos=2, maxlen=3, probes=7, canon=1), 1)
+          P("tcp", algs=7, dns=3, laddrs=11, ctos=1, dnstos=2, maxlen=3, probes=7, canon=1), 1)
         A("tcp: all lists <=2, D<=2", P("tcp", algs=7, dns=3, laddrs=3, ctos=3, dnstos=2, maxlen=2, probes=1), 2)
     for tp in ("tls", "btls", "utls"):
         if q:
@@ -116,8 +116,10 @@ def configs(tier):
         A("btcp (asan): canonical lists of 2, local address v4:0", P(algs=6, dns=3, laddrs=2, ctos=1, dnstos=2, minlen=2, maxlen=2, canon=1),
           1, "asan")
     else:
-        A("btcp (asan): canonical lists <=3, local address v4:0 / v6:fixed",
-          P(algs=7, dns=3, laddrs=18, ctos=1, dnstos=2, maxlen=3, canon=1), 1, "asan")
+        A("btcp (asan): canonical lists <=2, local address v4:0 / v6:fixed",
+          P(algs=7, dns=3, laddrs=18, ctos=1, dnstos=2, maxlen=2, canon=1), 1, "asan")
+        A("btcp (asan): canonical lists of 3, sequential, late resolver, local address v4:0",
+          P(algs=2, dns=2, laddrs=2, ctos=1, dnstos=2, minlen=3, maxlen=3, canon=1), 1, "asan")
         A("tls (asan): canonical lists of 2, local address v4:0", P("tls", algs=6, dns=3, laddrs=2, ctos=1, dnstos=2, minlen=2, maxlen=2,
                                                                    canon=1), 1, "asan")
     return c
@@ -174,6 +176,12 @@ def merge(chk, res, label, variant):
         sig = v["signature"]
         if sig.startswith("internal/"):
             chk.broke("%s: harness-internal failure %s: %s" % (label, sig, v["text"]))
+            continue
+        if v.get("crash") and "SIGALRM" in sig and not v.get("reproduced"):
+            # the explorer's watchdog is wall-clock (60 s per execution): on an overloaded machine a
+            # healthy execution can hit it once; a real hang reproduces on both replays and is reported
+            chk.info("C13/info/watchdog-not-reproducible", "%s: one execution was killed by the 60 s wall-clock watchdog and "
+                     "ran to completion on both replays (machine load)" % label)
             continue
         if v.get("crash"):
             sig = crash_signature(v, res["exe"], res.get("params"), variant)
@@ -263,5 +271,5 @@ def run(chk, tier, jobs, deadline):
                 executions=tot["executions"], evaluations=tot["executions"], world_tables=tot["tables"],
                 distinct_outcomes_summed=tot["outcomes"], choice_points_total=tot["points"], configurations=len(cfgs),
                 per_configuration=per_cfg, samples=samples, exhaustive=completed_all and not chk.deadline_hit,
-                deviation_bound="D<=1 in every slice" if q else "D<=1 in every slice; D<=2 all lists<=3 without / canonical lists<=3 with local address; D<=4 canonical lists<=2; D<=3 resolver failures and xcm_server")
+                deviation_bound="D<=1 in every slice" if q else "D<=1 in every slice (lists <=4); D<=2 all lists<=3 without and canonical lists<=3 with local address; D<=4 canonical lists<=2; D<=3 resolver failures and xcm_server")
     chk.add_cov(**{n: counters[i] for i, n in COUNTERS.items()})
